@@ -612,11 +612,14 @@ Proof.
   unfold Rdiv. nra.
 Qed.
 
-Definition f64_calculate_frequency (current reference : tcp_timestamp) : option R :=
+(* Result<Option<f64>, String> *)
+Inductive f64_freq_result := F64Ok (raw : R) | F64Wait | F64Err.
+
+Definition f64_calculate_frequency (current reference : tcp_timestamp) : f64_freq_result :=
   let ms_diff := saturating_sub (recv_time_ms current) (recv_time_ms reference) in
   let ts_diff := wrapping_sub32 (ts_val current) (ts_val reference) in
-  if (ms_diff <? MIN_TWAIT)%Z then None
-  else if (MAX_TWAIT <? ms_diff)%Z then None
+  if (ms_diff <? MIN_TWAIT)%Z then F64Err
+  else if (MAX_TWAIT <? ms_diff)%Z then F64Err
   else
     let is_backward := (not32 ts_diff <? ts_diff)%Z in
     let guards_pass :=
@@ -626,20 +629,25 @@ Definition f64_calculate_frequency (current reference : tcp_timestamp) : option 
         else if (ms_diff <? TSTAMP_GRACE)%Z
                 && Rlt_bool (rnd (rnd (1500 / rnd 100) * 1000)) (rnd (IZR inverted_diff)) then false
         else true
-      else negb (ts_diff <? MIN_TS_DIFF)%Z in
-    if negb guards_pass then None
+      else true in
+    if negb guards_pass then F64Err
     else
       let effective_ms_diff := Z.max ms_diff 1 in
       let raw_freq :=
         if (not32 ts_diff <? ts_diff)%Z then f64_raw_neg (not32 ts_diff) effective_ms_diff
         else f64_raw ts_diff effective_ms_diff in
-      if Rle_bool 1 raw_freq && Rle_bool raw_freq 1500 then Some raw_freq else None.
+      if negb (Rle_bool 1 raw_freq && Rle_bool raw_freq 1500) then F64Err
+      else if (ts_diff <? MIN_TS_DIFF)%Z then F64Wait
+      else F64Ok raw_freq.
 
-Definition f64_estimate (t1 v1 t2 v2 : Z) : option uptime :=
+Definition f64_eval (t1 v1 t2 v2 : Z) : eval_result :=
   match f64_calculate_frequency (ts_now v2 t2) (ts_now v1 t1) with
-  | Some raw => Some (f64_uptime v2 (f64_final_frequency raw))
-  | None => None
+  | F64Ok raw => EvEst (f64_uptime v2 (f64_final_frequency raw))
+  | F64Wait => EvWait
+  | F64Err => EvBad
   end.
+Definition f64_estimate (t1 v1 t2 v2 : Z) : option uptime :=
+  match f64_eval t1 v1 t2 v2 with EvEst u => Some u | _ => None end.
 
 Lemma Rlt_bool_IZR a b : Rlt_bool (IZR a) (IZR b) = (a <? b)%Z.
 Proof.
@@ -659,13 +667,13 @@ Proof.
   split; [apply grid_points_pos | apply grid_points_le]; exact G.
 Qed.
 
-(* THE RESULT: the estimator computed in binary64 (round-to-nearest-even) returns exactly what the
-   exact-rational MODEL returns, for every pair of observations *)
-Theorem f64_estimate_eq t1 v1 t2 v2 :
+(* THE RESULT: the estimator computed in binary64 (round-to-nearest-even) decides and returns exactly what
+   the exact-rational MODEL does (report / keep waiting / mark bad), for every pair of observations *)
+Theorem f64_eval_eq t1 v1 t2 v2 :
   (0 <= v2 < 4294967296)%Z ->
-  f64_estimate t1 v1 t2 v2 = model_estimate t1 v1 t2 v2.
+  f64_eval t1 v1 t2 v2 = model_eval t1 v1 t2 v2.
 Proof.
-  intros Hv2. unfold f64_estimate, model_estimate, f64_calculate_frequency, calculate_frequency_p0f_style.
+  intros Hv2. unfold f64_eval, model_eval, f64_calculate_frequency, calculate_frequency_p0f_style.
   cbn [ts_val recv_time_ms ts_now]. cbv zeta.
   set (ms := saturating_sub t2 t1). set (tsd := wrapping_sub32 v2 v1).
   assert (Htsd : (0 <= tsd < 4294967296)%Z) by (unfold tsd, wrapping_sub32, U32; apply Z.mod_pos_bound; lia).
@@ -675,26 +683,26 @@ Proof.
   rewrite max_backward_ticks_f64.
   rewrite (rnd_id (IZR (not32 tsd))) by (apply fmt_Z; lia).
   rewrite Rlt_bool_IZR.
-  destruct (negb _); [reflexivity|].
+  destruct (negb (if (not32 tsd <? tsd)%Z then _ else true)); [reflexivity|].
   rewrite (Z.max_l ms 1) by lia.
-  assert (K : forall d, (0 <= d < 4294967296)%Z ->
-    match (if Rle_bool 1 (f64_raw d ms) && Rle_bool (f64_raw d ms) 1500 then Some (f64_raw d ms) else None) with
-    | Some raw => Some (f64_uptime v2 (f64_final_frequency raw)) | None => None end
-    = match (if q_le (q_of_Z MIN_FINAL_HZ) {| qn := d * 1000; qd := ms |} && q_le {| qn := d * 1000; qd := ms |} (q_of_Z MAX_FINAL_HZ)
-             then Some {| qn := d * 1000; qd := ms |} else None) with
-      | Some raw => Some (calculate_uptime_from_frequency v2 (final_frequency raw)) | None => None end).
-  { intros d Hd. rewrite (f64_range_check d ms Hd ltac:(lia)).
-    destruct (q_le (q_of_Z MIN_FINAL_HZ) _ && q_le _ (q_of_Z MAX_FINAL_HZ)) eqn:E; [|reflexivity].
-    assert (Hr : (ms <= 1000 * d <= 1500 * ms)%Z).
+  destruct (not32 tsd <? tsd)%Z.
+  - (* backward: the rate is non-positive on both sides, the range check fails *)
+    pose proof (f64_raw_neg_nonpos (not32 tsd) ms Hinv ltac:(lia)) as N.
+    rewrite (Rle_bool_false 1 (f64_raw_neg (not32 tsd) ms)) by lra.
+    unfold q_le, q_of_Z, MIN_FINAL_HZ. cbn [qn qd andb negb].
+    destruct (Z.leb_spec (1 * ms) (- (not32 tsd * 1000) * 1)); [lia | reflexivity].
+  - rewrite (f64_range_check tsd ms Htsd ltac:(lia)).
+    destruct (q_le (q_of_Z MIN_FINAL_HZ) _ && q_le _ (q_of_Z MAX_FINAL_HZ)) eqn:E; cbn [negb]; [|reflexivity].
+    destruct (tsd <? 5)%Z; [reflexivity|].
+    assert (Hr : (ms <= 1000 * tsd <= 1500 * ms)%Z).
     { unfold q_le, q_of_Z, MIN_FINAL_HZ, MAX_FINAL_HZ in E. cbn [qn qd] in E.
       apply andb_prop in E. destruct E as [E1 E2]. apply Z.leb_le in E1, E2. lia. }
-    rewrite (f64_final_frequency_eq d ms Hd ltac:(lia) Hr).
+    rewrite (f64_final_frequency_eq tsd ms Htsd ltac:(lia) Hr).
     rewrite f64_uptime_eq; [reflexivity | exact Hv2 |].
-    apply final_frequency_range; lia. }
-  destruct (not32 tsd <? tsd)%Z; [|apply K; assumption].
-  (* backward: the rate is non-positive on both sides, the range check fails *)
-  pose proof (f64_raw_neg_nonpos (not32 tsd) ms Hinv ltac:(lia)) as N.
-  rewrite (Rle_bool_false 1 (f64_raw_neg (not32 tsd) ms)) by lra.
-  unfold q_le, q_of_Z, MIN_FINAL_HZ. cbn [qn qd andb].
-  destruct (Z.leb_spec (1 * ms) (- (not32 tsd * 1000) * 1)); [lia | reflexivity].
+    apply final_frequency_range; lia.
 Qed.
+
+Theorem f64_estimate_eq t1 v1 t2 v2 :
+  (0 <= v2 < 4294967296)%Z ->
+  f64_estimate t1 v1 t2 v2 = model_estimate t1 v1 t2 v2.
+Proof. intros H. unfold f64_estimate, model_estimate. now rewrite f64_eval_eq. Qed.
